@@ -54,6 +54,8 @@ def run(rep, prog, tier):
     _r7(rep, prog)
     _r8(rep, prog)
     _r9(rep, prog)
+    _r10(rep, prog)
+    _r11(rep, prog)
 
 
 def _r6(rep, prog):
@@ -176,6 +178,85 @@ def _r9(rep, prog):
                       "`%s` cuts a vector with `%s` at a bound that comes from %s without a min / clamp against the vector's length: a request value larger than the number of elements panics "
                       "(top_hits with `from` beyond the hits of a bucket)" % (fid, f.split("::")[-1], sorted(short(x[1]) for x in lv if x[0] == "call")), site=site(b, bi))
     rep.floor(R, "request-sized cuts in the aggregation code", n, 1)
+
+
+def _r10(rep, prog):
+    """a collector is asked for the result of a parent bucket it may never have seen a document of"""
+    from ..model import Ev, must_precede
+    R = "C14-R10"
+    rep.rule(R, "results of unseen parent buckets: a sub-aggregation collector keeps one slot per parent bucket and grows the vector when documents arrive (prepare_max_bucket); add_intermediate_aggregation_result(parent_bucket_id) is also called for parent buckets that received no document in THIS segment. Sibling agreement (8 of the 13 implementations): before the vector is indexed with the parent bucket id — in the function itself or in a method of self it hands the id to — prepare_max_bucket has run (or the access is a checked `.get()`); an implementation that indexes directly panics ('index out of bounds') as soon as the documents of two parent buckets sit in different segments")
+    n = 0
+    for fid, b in sorted(prog.bodies.items()):
+        m = re.match(r"^<(.+) as tantivy::aggregation::segment_agg_result::SegmentAggregationCollector>::add_intermediate_aggregation_result$", fid)
+        if not m:
+            continue
+        ty = m.group(1)
+        tshort = ty.split("<")[0].split("::")[-1]
+        # bodies to look at: the function, plus methods of the same type that receive the parent bucket id
+        todo = [(b, 4, None)]     # (body, index of the parent_bucket_id parameter, call block in the entry function)
+        for bi, t in b.calls():
+            f = t.get("res") or t.get("f") or ""
+            cb = prog.bodies.get(f)
+            if cb is None or tshort not in f or f == fid or f.endswith("prepare_max_bucket"):
+                continue
+            for ai, o in enumerate(t.get("args", [])):
+                l = op_local(o)
+                if l is not None and ("param", 4) in provenance(b, l):
+                    todo.append((cb, ai + 1, bi))
+        for body, pidx, via in todo:
+            sites_ = []
+            for bi, t in body.calls():
+                f = t.get("res") or t.get("f") or ""
+                if re.search(r"core::ops::index::Index(Mut)?<.*>>::index(_mut)?$|Index(Mut)?::index(_mut)?$", f) and len(t.get("args", [])) > 1:
+                    l = op_local(t["args"][1])
+                    if l is not None and ("param", pidx) in provenance(body, l):
+                        sites_.append(bi)
+            for bi in body.normal_blocks():
+                tt = body.term(bi)
+                if tt["k"] == "assert" and "BoundsCheck" in str(tt.get("msg")):
+                    cl = op_local(tt["cond"]) if isinstance(tt.get("cond"), dict) else None
+                    if cl is not None and ("param", pidx) in provenance(body, cl):
+                        sites_.append(bi)
+            for sbi in sites_:
+                n += 1
+                prep_here = [Ev(x, "term") for x, t in body.calls() if (t.get("res") or t.get("f") or "").endswith("prepare_max_bucket")]
+                ok = bool(prep_here) and not must_precede(body, prep_here, [Ev(sbi, "term")])
+                if not ok:
+                    # third idiom: an explicit `if parent_bucket_id >= self.buckets.len() { return .. }` guard
+                    from ..rules import dominating_guards
+                    for sb, through, gl in dominating_guards(body, sbi):
+                        glv = provenance(body, gl)
+                        if ("param", pidx) in glv and any(x[0] == "call" and x[1].endswith("::len") for x in glv):
+                            ok = True
+                if not ok and via is not None:
+                    prep_entry = [Ev(x, "term") for x, t in b.calls() if (t.get("res") or t.get("f") or "").endswith("prepare_max_bucket")]
+                    ok = bool(prep_entry) and not must_precede(b, prep_entry, [Ev(via, "term")])
+                rep.check(ok, R, "%s: the slot of the parent bucket exists before it is indexed (%s)" % (tshort, short(body.id).split("::")[-1]), "prepare_max_bucket runs first",
+                          "`%s` indexes its per-parent-bucket vector with the parent bucket id in `%s` without having grown it (prepare_max_bucket) — its siblings all do: a parent bucket that received no document in this segment "
+                          "makes the search panic with `index out of bounds` (range(i) > composite(terms s) with one document per segment)" % (ty, body.id), site=site(body, sbi))
+    rep.floor(R, "indexed accesses by parent bucket id in add_intermediate_aggregation_result", n, 8)
+
+
+def _r11(rep, prog):
+    """making room for a parent bucket never throws collected buckets away"""
+    from ..rules import dominating_guards
+    R = "C14-R11"
+    rep.rule(R, "prepare_max_bucket only grows: the buffered sub-aggregation flushes call prepare_max_bucket(largest bucket id of the current BATCH) before every batch, so the id can be smaller than one seen before. Sibling agreement (11 of the 12 growth sites): every Vec::push / resize / resize_with in an implementation of SegmentAggregationCollector::prepare_max_bucket is dominated by a comparison with the vector's current len(); an unguarded resize(max_bucket + 1) truncates the buckets collected by earlier batches")
+    n = 0
+    for fid, b in sorted(prog.bodies.items()):
+        m = re.match(r"^<(.+) as tantivy::aggregation::segment_agg_result::SegmentAggregationCollector>::prepare_max_bucket$", fid)
+        if not m:
+            continue
+        for bi, t in b.calls():
+            f = t.get("f") or ""
+            if not re.search(r"Vec::<.*>::(resize|resize_with|truncate|push|set_len)$", f):
+                continue
+            n += 1
+            guarded = any(any(x[0] == "call" and x[1].endswith("::len") for x in provenance(b, gl)) for sb, th, gl in dominating_guards(b, bi))
+            rep.check(guarded, R, "%s::prepare_max_bucket grows its bucket vector only" % m.group(1).split("<")[0].split("::")[-1], "%s under a len() test" % f.split("::")[-1],
+                      "`%s` calls %s without comparing with the vector's length first: a flush whose batch only touches low bucket ids shrinks the vector and drops what earlier batches collected for the higher ids — "
+                      "terms(3000 distinct values) > top_hits followed by a long run of documents of the first term returns empty top_hits for 2999 of the 3000 buckets" % (fid, f.split("::")[-1]), site=site(b, bi))
+    rep.floor(R, "growth sites in prepare_max_bucket implementations", n, 10)
 
 
 def _merge_functions(prog):
